@@ -233,6 +233,8 @@ func runC17(c *hx.Ctx) {
 		var files []gen.ZipFileSpec
 		if i%5 == 0 {
 			files = gen.ValidModuleFileList(r)
+		} else if i%25 == 1 {
+			files = gen.ZipSizeBoundaryList(r)
 		} else {
 			files = gen.ModuleFileList(r)
 		}
